@@ -37,6 +37,54 @@ theorem ehpe_fields :
       (peIndirect b.val = true ↔ b.val &&& 0x80 ≠ 0) ∧ (peAbsent b.val = true ↔ b.val = 0xff) := by
   decide +kernel
 
+/-! ## (2) encoded pointers -/
+
+/-- **What a pointer field means, for every valid encoding.** For every valid encoding byte other
+than `omit` and the (unsupported) `aligned` application, every base set, offset, address size 1..8,
+byte order and input: if the base its application needs is absent the result is the
+corresponding `…BaseIsUndefined` / `FuncRelativePointerInBadContext` error — before a single
+byte is read —, otherwise it is `base + operand` modulo the address size, flagged indirect iff
+bit 7 is set, where the operand is what `parse_encoded_value` decodes in the format of the low
+nibble; for `pcrel` the base is the section address plus the offset *of the field itself*. -/
+theorem encoded_pointer_decode (m : Mode) (e : Endian) (enc : Nat) (p : PeParams) (r : Rd)
+    (hv : isValidEncoding enc = true) (ho : enc ≠ 0xff) (hal : peApplication enc ≠ 0x50)
+    (h1 : 1 ≤ p.asz) (h8 : p.asz ≤ 8) :
+    parseEncodedPointer m e enc p r =
+      (match neededBase enc p r.off with
+      | none => .err (missingBaseErr enc)
+      | some b => (parseEncodedValue e enc p.asz r >>= fun xr =>
+          pure (Ptr.new enc ((b + xr.1) % 2 ^ 64 % 2 ^ (8 * p.asz)), xr.2))) :=
+  pep_semantics m e enc p r hv ho hal h1 h8
+
+/-- error iff the needed base is absent, whatever the input -/
+theorem encoded_pointer_missing_base (m : Mode) (e : Endian) (enc : Nat) (p : PeParams) (r : Rd)
+    (hv : isValidEncoding enc = true) (ho : enc ≠ 0xff) (hal : peApplication enc ≠ 0x50)
+    (h1 : 1 ≤ p.asz) (h8 : p.asz ≤ 8) (hb : neededBase enc p r.off = none) :
+    parseEncodedPointer m e enc p r = .err (missingBaseErr enc) :=
+  pep_missing_base m e enc p r hv ho hal h1 h8 hb
+
+/-- **Encode then decode is the identity** for every valid format × application × indirect
+combination and every base set — *partial*: all value formats except `sleb128`
+(`encodeOperand` gives no encoder for it; a signed-LEB128 round-trip theorem is missing in C09's
+lemma library; sleb128 pointers are covered by `encoded_pointer_decode` and the differential run).
+Full statement: the same with `encodeOperand` total on format 0x09.
+The operand `x` is any 64-bit pattern that fits the format; the decoded pointer is
+`base + x` modulo the address size and exactly the operand's bytes are consumed. -/
+theorem encoded_pointer_roundtrip_partial (m : Mode) (e : Endian) (enc : Nat) (p : PeParams)
+    (off x b : Nat) (bytes rest : Bytes)
+    (hv : isValidEncoding enc = true) (ho : enc ≠ 0xff) (hal : peApplication enc ≠ 0x50)
+    (h1 : 1 ≤ p.asz) (h8 : p.asz ≤ 8)
+    (hb : neededBase enc p off = some b)
+    (hx : encodeOperand e enc p.asz x = some bytes) :
+    parseEncodedPointer m e enc p ⟨off, bytes ++ rest⟩ =
+      .ok (Ptr.new enc ((b + x) % 2 ^ 64 % 2 ^ (8 * p.asz)), ⟨off + bytes.length, rest⟩) :=
+  pep_roundtrip m e enc p off x b bytes rest hv ho hal h1 h8 hb hx
+
+/-- every target address below `2^(8·asz)` has an operand reaching it from any base -/
+theorem encoded_pointer_operand_exists (asz b t : Nat) (h8 : asz ≤ 8) (ht : t < 2 ^ (8 * asz)) :
+    (b + operandFor asz b t) % 2 ^ 64 % 2 ^ (8 * asz) = t ∧ operandFor asz b t < 2 ^ (8 * asz) :=
+  operandFor_spec asz b t h8 ht
+
 /-! ## (3) the `.eh_frame_hdr` binary search -/
 
 /-- **Binary search is correct, for every table size and content.** Let the parsed header `h`
@@ -130,6 +178,44 @@ theorem linear_lookup_iff (c : Cfg) (bases : Bases) (sec : Bytes) (a : Nat) (fs 
     · constructor
       · intro _ f hm; have := hf f hm; simpa using this
       · intro _; rfl
+
+/-! ## (6) the three lookup paths agree -/
+
+/-- **Lookup through the `.eh_frame_hdr` table = exhaustive scan.** If the table indexes the
+section's FDEs (`Indexes`: rows sorted, complete, pointing at the FDEs `fs`, whose ranges are
+non-empty, non-wrapping and pairwise disjoint), `table.fde_for_address a` (binary search,
+`pointer_to_offset`, `fde_from_offset`, `contains` re-check) returns the FDE of `fs` covering `a`,
+and `NoUnwindInfoForAddress` when none does. -/
+theorem hdr_lookup_iff_scan (c : Cfg) (bases : Bases) (h : Hdr) (frame : Bytes) (fs : List Fde)
+    (size : Nat) (key : Nat → Nat) (g : Nat → Fde) (a : Nat)
+    (hi : Indexes c bases h frame fs size key g) :
+    hdrFdeForAddress c bases h frame a =
+      match fs.find? (fun f => decide (covers f.initial f.range a)) with
+      | some f => .ok f
+      | none => .err .rNoUnwindInfoForAddress :=
+  hdrFdeForAddress_eq_find c bases h frame fs size key g a hi
+
+/-- **The three paths agree.** For a section that iterates and parses to the FDE list `fs`
+(no wrap) and a table indexing it: linear search and table search return the same result for
+every address — the first (= only) FDE of `fs` covering it, else `NoUnwindInfoForAddress` —, and
+both `unwind_info_for_address` entry points are that lookup followed by the row search of the
+unwind machine (`rowFor`: any function, C06 models it) in the FDE found. -/
+theorem three_paths_agree {Row : Type} (rowFor : Fde → Nat → Out Row)
+    (c : Cfg) (bases : Bases) (h : Hdr) (frame : Bytes) (fs : List Fde)
+    (size : Nat) (key : Nat → Nat) (g : Nat → Fde) (a : Nat)
+    (hend : (entriesOf c bases frame).2 = .ok ())
+    (hparse : parseAll c bases frame (entriesOf c bases frame).1 = .ok fs)
+    (hwrap : ∀ f, f ∈ fs → NoWrap f)
+    (hi : Indexes c bases h frame fs size key g) :
+    hdrFdeForAddress c bases h frame a = fdeForAddress c bases frame a ∧
+    unwindInfoForAddress rowFor c bases frame a = (fdeForAddress c bases frame a >>= fun f => rowFor f a) ∧
+    hdrUnwindInfoForAddress rowFor c bases h frame a = unwindInfoForAddress rowFor c bases frame a := by
+  have h1 : hdrFdeForAddress c bases h frame a = fdeForAddress c bases frame a := by
+    rw [hdr_lookup_iff_scan c bases h frame fs size key g a hi,
+      linear_lookup_first c bases frame a fs hend hparse hwrap]
+  refine ⟨h1, rfl, ?_⟩
+  unfold hdrUnwindInfoForAddress unwindInfoForAddress
+  rw [h1]
 
 /-! ## (7) totality of pointer decoding -/
 
